@@ -416,8 +416,8 @@ def run_inst(run):
     from checks import valcomp
     cx = run.cx
     rng = cx.sub_rng("instid")
-    nsch = cx.n(4, 24)
-    per = cx.n(420, 6000)
+    nsch = cx.n(4, 12)
+    per = cx.n(420, 2500)
     total = n_acc = n_pairs = 0
     accepted, pairs = {}, {}
     verdicts = {}
@@ -506,10 +506,10 @@ def run_inst(run):
         for i in range(len(cans) - 1):
             pr.append((by_c[cans[i]][0], by_c[cans[i + 1]][-1]))
         flat = [x for c in cans for x in by_c[c]]
-        for _ in range(cx.n(60, 1500)):
+        for _ in range(cx.n(60, 800)):
             if flat:
                 pr.append((rng.choice(flat), rng.choice(flat)))
-        pr = list(dict.fromkeys(pr))[:cx.n(260, 6000)]
+        pr = list(dict.fromkeys(pr))[:cx.n(260, 2500)]
         sub = list(dict.fromkeys([p for p, _ in pr]))[:cx.n(25, 300)]
         cases = []
         for p, q in pr:
